@@ -8,6 +8,48 @@ use std::sync::Once;
 pub struct PanicInfo {
     pub message: String,
     pub location: String,
+    /// crate of the innermost stack frame that belongs to the code under test or one of its
+    /// dependencies (from the backtrace), e.g. "melstf", "catvec", "num_rational"
+    pub origin: String,
+}
+
+const CRATES: [&str; 20] = [
+    "melstf", "melvm", "tip911_stakeset", "melstructs", "catvec", "novasmt", "melpow", "num_bigint", "num_rational",
+    "num_integer", "num_traits", "imbl", "ethnum", "tmelcrypt", "stdcode", "bincode", "dashmap", "rayon_core", "melverif", "ed25519_consensus",
+];
+
+fn origin_of(bt: &str) -> String {
+    for line in bt.lines() {
+        let l = line.trim_start();
+        // frame lines look like "12: catvec::btree::Tree<T,_>::len"
+        if !l.chars().next().map(|c| c.is_ascii_digit()).unwrap_or(false) {
+            continue;
+        }
+        let mut best: Option<(usize, &str)> = None;
+        for c in CRATES.iter() {
+            let pat = format!("{}::", c);
+            if let Some(pos) = l.find(&pat) {
+                // must be at an identifier boundary
+                let ok = pos == 0 || !l.as_bytes()[pos - 1].is_ascii_alphanumeric() && l.as_bytes()[pos - 1] != b'_';
+                if ok && best.map(|b| pos < b.0).unwrap_or(true) {
+                    best = Some((pos, c));
+                }
+            }
+        }
+        if let Some((_, c)) = best {
+            if c != "melverif" || l.contains("melverif::mon") || l.contains("melverif::gen") {
+                return c.to_string();
+            }
+        }
+    }
+    "unknown".into()
+}
+
+/// An arithmetic-overflow trap raised inside third-party generic code only because it was
+/// instantiated in a crate built with overflow checks: production (release) builds wrap instead.
+pub fn is_debug_only_dependency_overflow(p: &PanicInfo) -> bool {
+    let arith = p.message.starts_with("attempt to ") && (p.message.contains("overflow") || p.message.contains("divide by zero") == false && p.message.contains("with overflow"));
+    arith && !matches!(p.origin.as_str(), "melstf" | "melvm" | "tip911_stakeset" | "unknown")
 }
 
 static RECORDS: Mutex<Vec<PanicInfo>> = Mutex::new(Vec::new());
@@ -16,6 +58,7 @@ static INSTALL: Once = Once::new();
 pub fn install() {
     INSTALL.call_once(|| {
         std::panic::set_hook(Box::new(|info| {
+            crate::alloc::suspend();
             let msg = if let Some(s) = info.payload().downcast_ref::<&str>() {
                 s.to_string()
             } else if let Some(s) = info.payload().downcast_ref::<String>() {
@@ -27,11 +70,13 @@ pub fn install() {
                 .location()
                 .map(|l| format!("{}:{}", l.file(), l.line()))
                 .unwrap_or_else(|| "<unknown>".into());
+            let bt = std::backtrace::Backtrace::force_capture().to_string();
+            let origin = origin_of(&bt);
             if let Ok(mut r) = RECORDS.lock() {
                 if r.len() > 4096 {
                     r.drain(..2048);
                 }
-                r.push(PanicInfo { message: msg, location: loc });
+                r.push(PanicInfo { message: msg, location: loc, origin });
             }
         }));
     });
@@ -55,12 +100,15 @@ pub fn guarded<T>(f: impl FnOnce() -> T) -> Result<T, PanicInfo> {
         Err(p) => {
             let msg = payload_msg(&p);
             let mut loc = "<unknown>".to_string();
+            let mut origin = "unknown".to_string();
             if let Ok(mut r) = RECORDS.lock() {
                 if let Some(pos) = r.iter().rposition(|x| x.message == msg) {
-                    loc = r.remove(pos).location;
+                    let rec = r.remove(pos);
+                    loc = rec.location;
+                    origin = rec.origin;
                 }
             }
-            Err(PanicInfo { message: msg, location: loc })
+            Err(PanicInfo { message: msg, location: loc, origin })
         }
     }
 }
